@@ -202,7 +202,8 @@ func (v *Verifier) mapInfo(mt *types.Map) mapInfo {
 
 func (v *Verifier) mapHas(st *State, h *HeapSnap, mi mapInfo, m, k Term) Term {
 	d := st.compAt(h, mi.dom, mi.domSig)
-	return Term{S: fmt.Sprintf("(select (select %s %s) %s)", d, m.S, k.S), Sort: SBool}
+	// a nil map has no key (Go semantics)
+	return Term{S: fmt.Sprintf("(and (not (= %s 0)) (select (select %s %s) %s))", m.S, d, m.S, k.S), Sort: SBool}
 }
 
 // mapValRead reads m[k] (raw, without the zero-default).
@@ -345,16 +346,7 @@ func (v *Verifier) rangeOfComp(name string) (lo, hi string, ok bool) {
 }
 
 func (v *Verifier) sigOfComp(name string) (string, bool) {
-	evalT := func(s string) (types.Type, bool) {
-		if gt, ok := v.ghostTypeOf(s); ok {
-			return gt, true
-		}
-		tv, err := types.Eval(v.prog.Fset, v.pkg.Pkg, 0, s)
-		if err != nil || tv.Type == nil {
-			return nil, false
-		}
-		return tv.Type, true
-	}
+	evalT := v.lookupType
 	walk := func(t types.Type, path string, arity int) (string, bool) {
 		for path != "" {
 			path = strings.TrimPrefix(path, ".")
@@ -514,6 +506,41 @@ func (v *Verifier) ghostTypeOf(s string) (types.Type, bool) {
 				v.ghostTypes[s] = t
 				v.ghostArrays[t] = true
 				return t, true
+			}
+		}
+	}
+	return nil, false
+}
+
+// lookupType parses a Go type written in a contract; unlike types.Eval in package scope it
+// also resolves identifiers qualified by the name of any package of the program.
+func (v *Verifier) lookupType(s string) (types.Type, bool) {
+	s = strings.TrimSpace(s)
+	if gt, ok := v.ghostTypeOf(s); ok {
+		return gt, true
+	}
+	if tv, err := types.Eval(v.prog.Fset, v.pkg.Pkg, 0, s); err == nil && tv.Type != nil {
+		return tv.Type, true
+	}
+	switch {
+	case strings.HasPrefix(s, "*"):
+		if t, ok := v.lookupType(s[1:]); ok {
+			return types.NewPointer(t), true
+		}
+	case strings.HasPrefix(s, "[]"):
+		if t, ok := v.lookupType(s[2:]); ok {
+			return types.NewSlice(t), true
+		}
+	}
+	if k := strings.LastIndex(s, "."); k > 0 && !strings.ContainsAny(s, "[]* ") {
+		pkgName, name := s[:k], s[k+1:]
+		for _, p := range v.prog.AllPackages() {
+			if p.Pkg.Name() == pkgName || p.Pkg.Path() == pkgName {
+				if o := p.Pkg.Scope().Lookup(name); o != nil {
+					if tn, ok := o.(*types.TypeName); ok {
+						return tn.Type(), true
+					}
+				}
 			}
 		}
 	}
